@@ -134,6 +134,25 @@ def run(tier, seed):
     scs = campaign.build(ck.rnd, 'core', n, 8, depth=2, all_match=True, directed=3)
     scs += campaign.build(ck.rnd, 'core', n // 4, 4, depth=3, all_match=True)
     attrval.run(ck, ck.rnd, 300 if tier == 'quick' else 5000)
+    # sibling lists whose names differ only in ASCII case (one type in HTML, several in XML) with the type-counting pseudo-classes
+    from props import C02 as _C02
+    import gen_selectors as _gs
+    for _ in range(40 if tier == 'quick' else 600):
+        top_, label_ = _C02.sibling_doc(ck.rnd, force_mixed=True, modes=['api', 'api', 'frag', 'toplevel', 'xml', 'html.parser'])
+        sc_ = e1.Scenario(top_, label_)
+        sc_.meta = {}
+        for _k in range(3):
+            a_ = [[{'ids': [], 'classes': [], 'attrs': [], 'pseudos': [('nth', ck.rnd.choice(['nth-of-type', 'nth-last-of-type']), 0, ck.rnd.choice([1, 1, 2]), None)]}]]
+            nm_ = ck.rnd.choice([None, 'li', 'LI', 'Li', 'dd'])
+            if nm_:
+                a_[0][0]['type'] = (None, nm_)
+            kind_, idx_ = a_[0][0]['pseudos'][0][1], a_[0][0]['pseudos'][0][3]
+            # written as a plain index or as the keyword form (the same positions as 0n+idx)
+            s_ = (nm_ or '') + (f':{kind_}({idx_})' if idx_ != 1 or ck.rnd.random() < 0.5 else {'nth-of-type': ':first-of-type', 'nth-last-of-type': ':last-of-type'}[kind_])
+            if s_ not in sc_.meta:
+                sc_.add(s_, [('select', (), 0)] + [('match', sc_.path_of[id(e)]) for e in sc_.elements[:12]])
+                sc_.meta[s_] = a_
+        scs.append(sc_)
     deep_documents(ck, tier)
     recs = matchcheck.run_corr(ck, scs)
     oracle(ck, scs, recs)
